@@ -48,7 +48,10 @@ func (o *ObjectSchema) checkOwnDefaultExpansion() {
 		if !ok || property == nil {
 			continue
 		}
-		expanding := map[*PropertySchema]struct{}{property: {}}
+		expanding := &defaultExpansionState{
+			inProgress: map[*PropertySchema]struct{}{property: {}},
+			finite:     map[*PropertySchema]struct{}{},
+		}
 		if defaultExpandsForever(property.TypeValue, defaultValue, expanding) {
 			panic(BadArgumentError{
 				Message: fmt.Sprintf(
@@ -61,9 +64,16 @@ func (o *ObjectSchema) checkOwnDefaultExpansion() {
 	}
 }
 
+// defaultExpansionState is the state of one walk: the properties whose defaults are being filled in (coming back to
+// one of them means the expansion never ends) and those whose defaults are known to end.
+type defaultExpansionState struct {
+	inProgress map[*PropertySchema]struct{}
+	finite     map[*PropertySchema]struct{}
+}
+
 // defaultExpandsForever follows data, a decoded default value, through the type t the way Unserialize does and
 // reports whether one of the properties in expanding would have to be filled from its default again.
-func defaultExpandsForever(t Type, data any, expanding map[*PropertySchema]struct{}) bool {
+func defaultExpandsForever(t Type, data any, expanding *defaultExpansionState) bool {
 	switch typed := t.(type) {
 	case Ref:
 		if !typed.ObjectReady() {
@@ -106,7 +116,7 @@ func defaultExpandsForever(t Type, data any, expanding map[*PropertySchema]struc
 	return false
 }
 
-func objectDefaultExpandsForever(object Object, data any, expanding map[*PropertySchema]struct{}) bool {
+func objectDefaultExpandsForever(object Object, data any, expanding *defaultExpansionState) bool {
 	properties := object.Properties()
 	fields, ok := data.(map[string]any)
 	if !ok {
@@ -131,15 +141,22 @@ func objectDefaultExpandsForever(object Object, data any, expanding map[*Propert
 		if !hasDefault {
 			continue
 		}
-		if _, again := expanding[property]; again {
+		if _, again := expanding.inProgress[property]; again {
 			return true
 		}
-		expanding[property] = struct{}{}
+		if _, known := expanding.finite[property]; known {
+			continue
+		}
+		expanding.inProgress[property] = struct{}{}
 		forever := defaultExpandsForever(property.TypeValue, defaultValue, expanding)
-		delete(expanding, property)
+		delete(expanding.inProgress, property)
 		if forever {
 			return true
 		}
+		// Everything this default leads to has been followed without coming back to a property that is being
+		// filled: it need not be followed again when another default leads here (a chain of objects with two
+		// defaulted references each would otherwise be walked 2^n times).
+		expanding.finite[property] = struct{}{}
 	}
 	return false
 }
@@ -147,7 +164,7 @@ func objectDefaultExpandsForever(object Object, data any, expanding map[*Propert
 func oneOfDefaultExpandsForever[KeyType int64 | string](
 	oneOf *OneOfSchema[KeyType],
 	data any,
-	expanding map[*PropertySchema]struct{},
+	expanding *defaultExpansionState,
 ) bool {
 	fields, ok := data.(map[string]any)
 	if !ok {
